@@ -15,6 +15,7 @@ where that can happen (the residues of G_ij reported by `gfterms` do not add up 
 chi: some Boltzmann weight below 1e-6) 1e-7 absolute is allowed instead.
 """
 import math
+import concurrent.futures as cf
 from fractions import Fraction
 import pv
 import edlib
@@ -159,7 +160,7 @@ class Obs:
                 self.v["<c+_%s c_%s>" % (t[1], t[2])] = complex(hx(t[3]), hx(t[4]))
             elif tag == "SUSC":
                 k = 7
-                while k + 2 < len(t) + 0 and k + 2 <= len(t) - 1:
+                while k + 3 <= len(t):
                     self.v["chi_%s%s,%s%s[mode %s](W%s)" % (t[1], t[2], t[3], t[4], t[5], t[k])] = complex(hx(t[k + 1]), hx(t[k + 2]))
                     k += 3
             elif tag == "SUSCAVG":
@@ -167,7 +168,7 @@ class Obs:
             elif tag == "CHI":
                 # CHI i j k l clear vanishing nparts tablesize {on-demand re im, table re im}
                 k, f = 9, 0
-                while k + 3 < len(t) + 1 and k + 3 <= len(t):
+                while k + 4 <= len(t):
                     self.v["X_%s%s%s%s(f%d)" % (t[1], t[2], t[3], t[4], f)] = complex(hx(t[k]), hx(t[k + 1]))
                     if t[k + 2] != "-":
                         self.v["Xtable_%s%s%s%s(f%d)" % (t[1], t[2], t[3], t[4], f)] = complex(hx(t[k + 2]), hx(t[k + 3]))
@@ -197,7 +198,7 @@ class Obs:
                     self.oracle["<n_%d>" % k] = hx(x)
             elif t[0] == "SUSC":
                 k = 6
-                while k + 2 <= len(t) - 1:
+                while k + 3 <= len(t):
                     self.oracle["chi_%s%s,%s%s[mode %s](W%s)" % (t[1], t[2], t[3], t[4], t[5], t[k])] = complex(hx(t[k + 1]), hx(t[k + 2]))
                     k += 3
             elif t[0] == "CHI":
@@ -324,8 +325,9 @@ def run(chk):
         q = queries(rng, n, beta, quick)
         runs = []
         plist = [("ignore", "ignore", ())] + [("default", "default", ())] + [("custom:" + nm, "custom", io) for (nm, io) in custom_sets(rng, text, quick)]
-        for (pname, mode, ioms) in plist:
-            r = run_partition(text, mode, ioms, q)
+        with cf.ThreadPoolExecutor(max_workers=6) as ex:
+            results = list(ex.map(lambda p: run_partition(text, p[1], p[2], q), plist))
+        for (pname, mode, ioms), r in zip(plist, results):
             stats["runs"] += 1
             if r.crash:
                 chk.violation("crash: %s | %s" % (" | ".join(text.strip().split("\n")), pname), "the library crashed (%s) with partition %s" % (r.crash[0], pname),
